@@ -1,0 +1,25 @@
+//go:build verif
+
+// Package simhook provides cooperative yield points for the deterministic
+// simulation harness (build tag verif).
+package simhook
+
+import "sync/atomic"
+
+var hook atomic.Pointer[func(site string)]
+
+// SetYield installs (or, with nil, removes) the scheduler hook.
+func SetYield(f func(site string)) {
+	if f == nil {
+		hook.Store(nil)
+		return
+	}
+	hook.Store(&f)
+}
+
+// Yield marks a point where the simulation scheduler may switch tasks.
+func Yield(site string) {
+	if f := hook.Load(); f != nil {
+		(*f)(site)
+	}
+}
